@@ -98,8 +98,9 @@ func (t *Thread) tick() {
 func (r *Run) newThread(name string, lib bool, parent *Thread) *Thread {
 	t := &Thread{id: len(r.threads), run: r, name: name, wake: make(chan struct{}, 1), lib: lib, completed: -1}
 	if parent != nil {
-		parent.tick()
+		// publish, then advance: what the parent does after the go statement is not ordered before the child
 		t.vc = parent.vc.clone()
+		parent.tick()
 	}
 	t.tick()
 	r.threads = append(r.threads, t)
@@ -222,14 +223,36 @@ func (t *Thread) yield(label string) {
 		return
 	}
 	others := r.enabledAfter(t)
-	if len(others) == 0 {
+	// -timerpreempt: a pending timer may fire at this very point (computation takes arbitrarily long), and the
+	// goroutine it wakes runs at once; charged to the delay bound like any other preemption
+	timerAlt := 0
+	if r.e.cfg.TimerPreempt && !r.horizon && r.hasActiveTimer() {
+		timerAlt = 1
+	}
+	if len(others)+timerAlt == 0 {
 		return
 	}
-	k := r.decide('S', 1+len(others), "yield:"+label, 1)
+	k := r.decide('S', 1+len(others)+timerAlt, "yield:"+label, 1)
 	if k == 0 {
 		return
 	}
 	r.delaysUsed++
+	if k == 1+len(others) {
+		before := map[*Thread]bool{}
+		for _, th := range others {
+			before[th] = true
+		}
+		r.event("~clock!")
+		r.advanceClock(t)
+		for _, th := range r.enabledAfter(t) {
+			if !before[th] && !th.parkedAny {
+				t.state = tRunnable
+				t.handoff(th)
+				return
+			}
+		}
+		return
+	}
 	t.state = tRunnable
 	others[k-1].unpark()
 	t.handoff(others[k-1])
@@ -452,7 +475,8 @@ func (t *Thread) execCase(c waitCase) (Value, bool) {
 		if ch.closed {
 			panic(&GoPanic{msg: "panic: send on closed channel"})
 		}
-		t.tick()
+		// release semantics: the vector clock is published first and the sender's own component advanced
+		// afterwards, so that what the sender does after the send is not taken to be ordered before the receiver
 		if len(ch.buf) == 0 {
 			if p, i := r.findPartner(ch, false, t); p != nil {
 				p.completed = i
@@ -461,12 +485,15 @@ func (t *Thread) execCase(c waitCase) (Value, bool) {
 				p.vc.join(t.vc)
 				if ch.cap == 0 {
 					t.vc.join(pv)
+					p.tick()
 				}
+				t.tick()
 				return nil, false
 			}
 		}
 		if len(ch.buf) < ch.cap {
 			ch.buf = append(ch.buf, chanMsg{c.val, t.vc.clone()})
+			t.tick()
 			return nil, false
 		}
 		panic("execCase: send not ready")
@@ -478,18 +505,19 @@ func (t *Thread) execCase(c waitCase) (Value, bool) {
 		t.vc.join(m.vc)
 		if p, i := r.findPartner(ch, true, t); p != nil {
 			// a blocked sender can now deposit its value
-			p.tick()
 			ch.buf = append(ch.buf, chanMsg{p.cases[i].val, p.vc.clone()})
+			p.tick()
 			p.completed = i
 		}
 		return m.v, true
 	}
 	if p, i := r.findPartner(ch, true, t); p != nil {
-		p.tick()
 		v := p.cases[i].val
 		pv := p.vc.clone()
 		p.vc.join(t.vc)
 		t.vc.join(pv)
+		p.tick()
+		t.tick()
 		p.completed = i
 		return v, true
 	}
@@ -530,9 +558,9 @@ func (t *Thread) chanClose(ch *Chan) {
 	if ch.closed {
 		panic(&GoPanic{msg: "panic: close of closed channel"})
 	}
-	t.tick()
 	ch.closed = true
 	ch.closeVC = t.vc.clone()
+	t.tick()
 }
 
 func (t *Thread) selectOp(fr *Frame, in *ssa.Select) Value {
@@ -585,8 +613,8 @@ func (r *Run) hasActiveTimer() bool {
 
 func (r *Run) addTimer(t *Thread, d *Term) *vtimer {
 	r.timerSeq++
-	t.tick()
 	tm := &vtimer{id: r.timerSeq, deadline: r.e.tt.Bin(OpAdd, r.clock, d), active: true, vc: t.vc.clone()}
+	t.tick()
 	r.timers = append(r.timers, tm)
 	return tm
 }
@@ -678,8 +706,8 @@ func (t *Thread) unlock(p *Value) {
 	if !m.locked {
 		panic(&GoPanic{msg: "fatal error: sync: unlock of unlocked mutex"})
 	}
-	t.tick()
 	m.vc = t.vc.clone()
+	t.tick()
 	m.locked = false
 	t.yield("unlock")
 }
@@ -699,8 +727,8 @@ func (t *Thread) runlock(p *Value) {
 	if m.readers <= 0 {
 		panic(&GoPanic{msg: "fatal error: sync: RUnlock of unlocked RWMutex"})
 	}
-	t.tick()
 	m.rvc.join(t.vc)
+	t.tick()
 	m.readers--
 	t.yield("runlock")
 }
